@@ -2,6 +2,7 @@ package c19
 
 import (
 	"fmt"
+	"math/rand/v2"
 	"sort"
 	"strings"
 	"sync"
@@ -48,6 +49,10 @@ type sim struct {
 	before    map[*initWatch]bool
 	expectClose map[int]bool // tables that become initialized by the commit in flight
 	nextName  int
+	ctl        *hookctl.Ctl
+	regRng     *rand.Rand
+	regSeq     int
+	regPending chan struct{}
 	checks    int
 	registered int
 	verdicts  int
@@ -132,6 +137,28 @@ func (s *sim) monitor(point, handle string) {
 	}
 	switch point {
 	case "commit.beforeRootLock", "commit.rootLocked":
+		if point == "commit.rootLocked" && s.regRng != nil && s.regRng.IntN(4) == 0 && s.regPending == nil {
+			// a table registration runs into this commit: it queues on the root lock and must not undo what the commit publishes
+			s.regSeq++
+			name := fmt.Sprintf("late%d", s.regSeq)
+			hN := fmt.Sprintf("%s-reg%d", handle, s.regSeq)
+			done := make(chan struct{})
+			s.regPending = done
+			go func() {
+				defer close(done)
+				statedb.NewTable(s.db.NewHandle(hN), name, concw.IDIndex)
+			}()
+			for i := 0; i < 2000 && s.ctl.At(hN) != "register.beforeLock"; i++ {
+				select {
+				case <-done:
+					i = 2000
+				default:
+					time.Sleep(20 * time.Microsecond)
+				}
+			}
+			time.Sleep(100 * time.Microsecond)
+			s.r.Count("registrations_into_commit", 1)
+		}
 		for _, w := range s.watches {
 			if !s.before[w] && isClosed(w.ch) {
 				s.violate("closed-before-root-store", "at %s: the Initialized() channel of table %d (from %s) is already closed", point, w.table, w.origin)
@@ -264,6 +291,14 @@ func (s *sim) run() {
 				}
 			}
 			rt := wtxn.Commit()
+			if s.regPending != nil {
+				select {
+				case <-s.regPending:
+				case <-time.After(20 * time.Second):
+					s.violate("registration-stuck", "%s: NewTable started during the commit did not finish", what)
+				}
+				s.regPending = nil
+			}
 			for _, ti := range set {
 				was := s.committed[ti]
 				s.committed[ti] = working[ti]
@@ -325,7 +360,7 @@ func TestVerif_Histories(t *testing.T) {
 		}
 	})
 	r.ParallelCases(vkit.N(6000, 150000), vkit.Workers(), func(i int) {
-		s := &sim{r: r, idx: i, fp: vkit.NewHash()}
+		s := &sim{r: r, idx: i, fp: vkit.NewHash(), ctl: ctl, regRng: r.Rand(i, 77)}
 		h := fmt.Sprintf("c19-%d", i)
 		s.db = statedb.New().NewHandle(h)
 		monitors.Store(h, s.monitor)
